@@ -258,6 +258,9 @@ class Interp:
         self.calls = 0
         self.max_loop = 400000
         self.trace = None  # optional list of interpreted function qualnames
+        # ghost observation of locals: {function qualname suffix: callback(frame_locals, lineno)} called
+        # after every assignment statement of that function (used for lemma chains; never changes state)
+        self.watch = {}
 
     # ===================================================================== calls
 
@@ -560,7 +563,14 @@ class Interp:
             val = self.eval(s.value, f)
         for t in s.targets:
             self.assign(t, val, f)
+        if self.watch:
+            self._watch(s, f)
         return None
+
+    def _watch(self, s, f):
+        for suffix, cb in self.watch.items():
+            if f.name.endswith(suffix):
+                cb(f.locals, s.lineno)
 
     def x_AnnAssign(self, s, f):
         if s.value is not None:
@@ -588,6 +598,8 @@ class Interp:
             self.setitem(obj, idx, val)
         else:
             raise Unsupported("augmented assignment target")
+        if self.watch:
+            self._watch(s, f)
         return None
         yield
 
